@@ -1,5 +1,6 @@
 import Wayfind.Proofs.Registry9
 import Wayfind.Proofs.ParseNonempty
+import Wayfind.Proofs.CloneCells
 
 /-! the combined invariant along histories; `delete` on live and non-live templates; atomicity; round trip -/
 
@@ -24,6 +25,78 @@ theorem validated_is_live {r : Router} {L : List LiveT} (hreg : Reg r.root L) {t
     have ht := mismatchOf_none hm e he i hf
     obtain ⟨lt, hlt, _, _, _, hok⟩ := hreg.sound e.2 i (parse_wf hp e he) hf
     exact ⟨lt, hlt, by rw [← hok.1, ht]⟩
+
+
+/-! ### `Clone`: every shared value of the copy holds a cell of its own, with count one -/
+
+theorem find?_range_map (k : Nat) : ∀ (n : Nat),
+    ((List.range n).map (fun c => (c, 1))).find? (fun x : Nat × Nat => x.1 == k) = if k < n then some (k, 1) else none
+  | 0 => by simp
+  | n + 1 => by
+    rw [List.range_succ, List.map_append, List.find?_append, find?_range_map k n]
+    by_cases h : k < n
+    · simp [h, Nat.lt_succ_of_lt h]
+    · by_cases h2 : k = n
+      · subst h2; simp
+      · have h3 : ¬ k < n + 1 := by omega
+        have h4 : (n == k) = false := by simp; omega
+        simp [h, h3, h4]
+
+theorem rcGet_range (nx k : Nat) (h : k < nx) : rcGet ((List.range nx).map (fun c => (c, 1))) k = 1 := by
+  unfold rcGet
+  rw [find?_range_map, if_pos h]
+  rfl
+
+theorem Router.clone_root (r : Router) : r.clone.root = (Node.recell r.root 0).1 := rfl
+theorem Router.clone_next (r : Router) : r.clone.next = (Node.recell r.root 0).2 := rfl
+theorem Router.clone_rc (r : Router) : r.clone.rc = (List.range (Node.recell r.root 0).2).map (fun c => (c, 1)) := rfl
+
+theorem RcInv.clone {r : Router} {L : List LiveT} (hreg : Reg r.root L) (h : RcInv r L) : RcInv r.clone L := by
+  have hregc := Reg.clone hreg
+  refine ⟨?_, ?_, ?_⟩
+  · intro lt hlt hlen e he i hf
+    obtain ⟨j, hfj, _⟩ := hreg.complete lt hlt e he
+    have hj := h.single lt hlt hlen e he j hfj
+    rw [Router.clone_root] at hf
+    have := (recell_cell_isSome r.root e.2 i j hf hfj).1
+    rw [hj] at this
+    cases hc : i.cell with
+    | none => rfl
+    | some c => rw [hc] at this; cases this
+  · intro lt hlt hlen e he i hf
+    have hwf := parse_wf (hreg.parsed lt hlt)
+    obtain ⟨j, hfj, _⟩ := hreg.complete lt hlt e he
+    obtain ⟨k0, hk0, _, _⟩ := h.multi lt hlt hlen e he j hfj
+    rw [Router.clone_root] at hf
+    have hs := (recell_cell_isSome r.root e.2 i j hf hfj).1
+    rw [hk0] at hs
+    cases hc : i.cell with
+    | none => rw [hc] at hs; cases hs
+    | some k =>
+      have hlt' := (recell_cell_inj r.root hreg.shp e.2 e.2 (hwf e he) (hwf e he) i i k hf hf hc hc).2
+      refine ⟨k, rfl, by rw [Router.clone_next]; exact hlt', ?_⟩
+      rw [Router.clone_rc, rcGet_range _ _ hlt', Router.clone_root]
+      have hpos := cellKeys_pos (Node.recell r.root 0).1 k lt.exps [] e he (by simp) (by rw [cellAt_of_find hf, hc])
+      have hle := cellKeys_le_one (Node.recell r.root 0).1 k e.2 lt.exps [] (by
+        intro y hy _ hca
+        unfold cellAt at hca
+        cases hfy : Node.find (Node.recell r.root 0).1 y.2 with
+        | none => rw [hfy] at hca; cases hca
+        | some i' =>
+          rw [hfy] at hca
+          exact (recell_cell_inj r.root hreg.shp y.2 e.2 (hwf y hy) (hwf e he) i' i k hfy hf hca hc).1)
+      omega
+  · intro lt1 hlt1 lt2 hlt2 e1 he1 e2 he2 i1 i2 k hf1 hf2 hc1 hc2
+    have hwf1 := parse_wf (hreg.parsed lt1 hlt1) e1 he1
+    have hwf2 := parse_wf (hreg.parsed lt2 hlt2) e2 he2
+    rw [Router.clone_root] at hf1 hf2
+    have hk := (recell_cell_inj r.root hreg.shp e1.2 e2.2 hwf1 hwf2 i1 i2 k hf1 hf2 hc1 hc2).1
+    obtain ⟨a, hfa, hoka⟩ := hregc.complete lt1 hlt1 e1 he1
+    obtain ⟨b, hfb, hokb⟩ := hregc.complete lt2 hlt2 e2 he2
+    rw [Router.clone_root] at hfa hfb
+    rw [hk] at hfa
+    rw [hfa] at hfb; injection hfb with hfb
+    rw [← hoka.1, ← hokb.1, hfb]
 
 theorem inv_step {r : Router} {L : List LiveT} (h : RInv r L) (c : Call) :
     RInv (r.step c) (liveAfter r L c) := by
@@ -73,6 +146,7 @@ theorem inv_step {r : Router} {L : List LiveT} (h : RInv r L) (c : Call) :
               | false => exact absurd ⟨hm, hh⟩ hv
             simp only [this, ite_true]
         rw [this]; exact h
+  | clone => exact ⟨Reg.clone h.reg, RcInv.clone h.reg h.rc⟩
 
 theorem runLive_inv : ∀ (calls : List Call) (r : Router) (L : List LiveT), RInv r L →
     RInv (runLive r L calls).1 (runLive r L calls).2
